@@ -70,7 +70,8 @@ impl GitHubActionsParser {
         results: &mut Vec<PackageInfo>,
     ) {
         // Look for "steps" key and only extract uses from within steps
-        if node.kind() == "block_mapping_pair"
+        // (a key: value pair of a block mapping, or of a flow mapping `{ key: value }`)
+        if (node.kind() == "block_mapping_pair" || node.kind() == "flow_pair")
             && let Some(key_node) = node.child_by_field_name("key")
             && self.get_node_text(key_node, content) == "steps"
             && let Some(value_node) = node.child_by_field_name("value")
@@ -94,8 +95,8 @@ impl GitHubActionsParser {
         content: &str,
         results: &mut Vec<PackageInfo>,
     ) {
-        // Check if this is a block_mapping_pair with key "uses"
-        if node.kind() == "block_mapping_pair"
+        // Check if this is a key: value pair (block or flow style) with key "uses"
+        if (node.kind() == "block_mapping_pair" || node.kind() == "flow_pair")
             && let Some(key_node) = node.child_by_field_name("key")
             && self.get_node_text(key_node, content) == "uses"
             && let Some(value_node) = node.child_by_field_name("value")
